@@ -90,7 +90,7 @@ static struct {
   std::vector<std::string> known;
   int verbose = 0;
   uint64_t max_steps = 20000000;
-  int wall_seconds = 60;
+  int wall_seconds = 240;  // per execution; executions take milliseconds, this only has to survive a badly overloaded machine
   int samples = 3;
   int fresh = 0; // one process per execution (debugging / cross-check of the in-process mode)
   long recycle = 400; // executions per worker process
